@@ -1003,9 +1003,9 @@ func runEntryPoints(c *vlib.Ctx) {
 	}
 }
 
-// 3. ToNode's panic guard: when bindnode panics inside Wrap (here provoked by pointing the
-//    exported prototype variables at the wrong type, and at nil; restored afterwards), ToNode
-//    hands back an error instead of panicking (recover + toError)
+//  3. ToNode's panic guard: when bindnode panics inside Wrap (here provoked by pointing the
+//     exported prototype variables at the wrong type, and at nil; restored afterwards), ToNode
+//     hands back an error instead of panicking (recover + toError)
 func runToNodeGuard(c *vlib.Ctx) {
 	adP, chP := schema.AdvertisementPrototype, schema.EntryChunkPrototype
 	defer func() { schema.AdvertisementPrototype, schema.EntryChunkPrototype = adP, chP }()
